@@ -39,8 +39,7 @@ MIRRORED = [(_MH, 'MathMixin.generate_variable_list'), (_MH, 'MathMixin.gen_var_
             ('mitxgraders/helpers/calc/expressions.py', 'MathExpression.check_scope'),
             ('mitxgraders/helpers/calc/expressions.py', 'MathExpression.eval'),
             ('mitxgraders/helpers/calc/expressions.py', 'evaluator')]
-REFUTED = ['C09_ordered_list_config_error_refuted', 'C09_sum_empty_range_refuted', 'C09_sum_author_fields_refuted',
-           'C09_case_variant_report_refuted']
+REFUTED = ['C09_ordered_list_config_error_refuted', 'C09_sum_author_fields_refuted']
 TRUSTED = [
     'translator translate/restrict.py (typed, white-listed Python subset -> Gallina over lists of names; fail-closed)',
     'correspondence harness harness/props/c09.py: run-time wrappers around MathMixin.gen_var_and_func_samples, '
@@ -57,10 +56,11 @@ ASSUMPTIONS = ['samples >= 1 (schema: Positive(int)), so the student input is ev
                'whitelist and blacklist are not both non-empty (validate_blacklist_whitelist_config rejects the grader)',
                'IntegralGrader needs scipy, which is absent: its loop order and var_blacklist are covered by tie A only']
 
+# the defects that remain known (ids of /verif/known_findings.json).  Two former findings were repaired in /repo
+# (390fac8: SumGrader checks the summand's names over an empty range; ff844fe: check_scope formats its message before
+# appending suggestions) and left this mechanism: their witnesses stay in the corpus as ordinary cases that must pass.
 K_SIBLING = 'sibling-input-error-raised-as-ConfigError'
-K_EMPTY = 'sumgrader-empty-range-skips-scope-check'
 K_AUTHOR = 'summation-author-fields-validated-as-student-input'
-K_FORMAT = 'check_scope-case-suggestion-format-error'
 
 FORBIDDEN_MESSAGE = 'FORBIDDEN-C09'
 RESTRICTABLE = ['sin', 'cos', 'tan', 'sqrt', 'abs', 'arctan', 'sinh', 'ln']
@@ -513,6 +513,9 @@ class Gen:
                      term=T, place='summand', corpus='empty-range')
         self.add('Sum', cfg, author, ['2', '2', 'sqrt(1)', 'n'], 'func', 'invalid', honest=honest, twin=twin, entered=fields,
                  term='sqrt(1)', place='summand')
+        # an instructor variable re-used as the summation variable (repaired in /repo e54e9a1)
+        self.add('Sum', cfg, author, ['-3', '3', 'z^3', 'z'], 'dummy-instructor', 'refused', honest=honest, twin=honest,
+                 entered=fields, term='z', place='summation_variable', corpus='instructor-dummy')
         for upper, extra, what in [('z', {'instructor_vars': ['z'], 'user_constants': {'z': 4}, 'variables': []}, 'instructor'),
                                    ('sqrt(16)', {'blacklist': ['sqrt']}, 'func'),
                                    ('10', {'forbidden_strings': ['10']}, 'forbidden')]:
@@ -731,22 +734,6 @@ Definition agree_out (raw : option okv) (m : gout) (o : iobs) : bool :=
   | GDummyVariable, ODummy | GGenericError, OGeneric => true
   | _, _ => false
   end.
-(* how check_scope reports the undefined name of [input] when the defined variables are [scope] *)
-Definition report_of (c : rcfg) (scope : names) (input : str) : option gout :=
-  match py_strip input with
-  | [] => None
-  | s' => match parse_formula s' with
-          | PTree t => scope_report scope (func_scope c) (c_suffixes c) t
-          | _ => None
-          end
-  end.
-Definition refine (c : rcfg) (scope : names) (input : str) (g : gout) : gout :=
-  match g with
-  | GEvalError _ => match report_of c scope input with Some r => r | None => g end
-  | _ => g
-  end.
-Definition crashes (c : rcfg) (scope : names) (input : str) : bool :=
-  match report_of c scope input with Some GGenericError => true | _ => false end.
 Definition envn (c : rcfg) (sample : names) : env := name_env sample (func_scope c) (c_suffixes c).
 
 Record fcase := mkF { f_cfg : rcfg; f_params : list str; f_input : str; f_obs : fobs; f_perm : names; f_out : iobs }.
@@ -759,12 +746,8 @@ Definition run_f (k : fcase) : Z :=
     let sample := sample_names c (used_variables (f_input k) ++ flat_map used_variables (f_params k)) [] in
     if negb (opt_same sample (fo_sample (f_obs k))) then 2 else
     let raw := fo_raw (f_obs k) in
-    let m := formula_check scope_eval c P None (f_params k) [] [envn c sample] (cmp_of raw) (f_input k) in
-    let m' := match eval_all scope_eval (envn c sample) (f_params k) with
-              | inr _ => refine c (student_scope formula_blacklist c sample []) (f_input k) m
-              | inl _ => m
-              end in
-    if agree_out raw m' (f_out k) then 0 else 3
+    if agree_out raw (formula_check scope_eval c P None (f_params k) [] [envn c sample] (cmp_of raw) (f_input k)) (f_out k)
+    then 0 else 3
   end.
 
 Record lbox := mkLB { lb_key : str; lb_params : list str; lb_input : str; lb_obs : fobs }.
@@ -787,10 +770,6 @@ Definition run_l (k : lcase) : Z :=
     match ordered_list_check scope_eval boxes, l_out k with
     | inr es, OList oks => if oks_eqb (map e_ok es) oks then 0 else 3
     | inr _, OOther => if existsb (fun lb => match fo_raw (lb_obs lb) with None => true | _ => false end) (l_boxes k) then 0 else 3
-    | inl (GEvalError e), OGeneric =>
-        if existsb (fun b => let sf := sibling_formulas_of prelim b in
-                             crashes c (student_scope formula_blacklist c (sample_of b) (map fst sf)) (b_input b)) prelim
-        then 0 else 3
     | inl g, o => if agree_out None g o then 0 else 3
     | _, _ => 3
     end
@@ -802,7 +781,7 @@ Definition code_is (v : option val) (s : str) : bool :=
   match v with Some (VS x) => Qeq_bool (re x) (inject_Z (str_code s)) | _ => false end.
 Fixpoint lookup_range (tbl : list (str * str * option nat)) (lo hi : option val) : option (list val) :=
   match tbl with
-  | [] => None
+  | [] => Some [code_val []]        (* limits the implementation accepted but never summed over (an error came first) *)
   | (l, h, n) :: r => if code_is lo l && code_is hi h
                       then match n with Some k => Some (repeat (code_val []) k) | None => None end
                       else lookup_range r lo hi
@@ -820,14 +799,8 @@ Definition run_s (k : scase) : Z :=
     if negb (opt_same sample (fo_sample (s_obs k))) then 2 else
     let raw := fo_raw (s_obs k) in
     let O := mkSumOracle (lookup_range (s_ranges k)) (fun _ => Some (code_val [])) in
-    let m := sum_check scope_eval c P O (s_en k) au (s_stud k) [envn c sample] (cmp_of raw) in
-    let scope := student_scope summation_blacklist c sample [] in
-    match m, s_out k with
-    | GEvalError _, OGeneric =>
-        if crashes c scope (s_lower inp) || crashes c scope (s_upper inp) || crashes c (s_variable inp :: scope) (s_summand inp)
-        then 0 else 3
-    | _, o => if agree_out raw m o then 0 else 3
-    end
+    if agree_out raw (sum_check scope_eval c P O (s_en k) au (s_stud k) [envn c sample] (cmp_of raw)) (s_out k)
+    then 0 else 3
   end.
 
 Inductive ccase := CF (k : fcase) | CL (k : lcase) | CS (k : scase).
@@ -900,6 +873,8 @@ def judge(spec, obs, by_id):
         return ('cheating formula whose honest part (and harmless twin) earns credit was not refused with an error: '
                 'returned %r with grades %r' % (obs['detail'], obs.get('grades')))
     want = UNDEFINED_CLASSES if spec['expect'] == 'undefined' else ALLOWED_CLASSES
+    if spec['expect'] == 'refused':
+        want = ALLOWED_CLASSES + ('SummationError',)
     if obs['exc'] not in want:
         return ('cheating formula raised %s (%s); the property demands %s' % (obs['exc'], obs['message'][:120], '/'.join(want)))
     return None
@@ -953,7 +928,7 @@ def run(ctx):
         elif spec['kind'] == 'honest' and not credited(obs):
             dist['honest_not_credited'] = dist.get('honest_not_credited', 0) + 1
     res.distribution = dist
-    every = [{'id': k} for k in (K_SIBLING, K_EMPTY, K_AUTHOR, K_FORMAT)]
+    every = [{'id': k} for k in (K_SIBLING, K_AUTHOR)]
     buckets = {}
     for w in res.witnesses:
         buckets.setdefault(classify_known(w, every) or '', []).append(w)
@@ -1009,59 +984,16 @@ def classify_known(w, known):
                  or msg.startswith('Formula error in dependent sampling formula'))
             and w.get('box') is not None and referenced_by_earlier(spec.get('answers', []), w['box'])):
         return K_SIBLING
-    if (K_EMPTY in ids and spec.get('cls') == 'Sum' and w.get('place') == 'summand' and w.get('observed', [None])[0] == 'result'
-            and w.get('kind') in ('instructor', 'undefined', 'suffix', 'sibling') and empty_range(spec, w.get('entered', FIELDS))):
-        return K_EMPTY
-    if (K_FORMAT in ids and w.get('observed_class') == 'StudentFacingError' and msg.startswith('Invalid Input: Could not check input')
-            and w.get('kind') in ('undefined', 'undefcall', 'instructor', 'sibling') and brace_variant_in_scope(spec, w.get('term'))):
-        return K_FORMAT
     if (K_AUTHOR in ids and spec.get('cls') == 'Sum' and w.get('kind') == 'honest'
             and len(w.get('entered', FIELDS)) < 4 and student_fields_clean(spec, w.get('entered', FIELDS))):
         return K_AUTHOR
     return None
 
 
-def brace_variant_in_scope(spec, term):
-    """the undefined name differs only by case from a name with braces that the answer, the input or the configuration uses"""
-    import re as _re
-    if not term:
-        return False
-    bad = _re.match(r"[A-Za-z][A-Za-z0-9]*(?:_\{-?[A-Za-z0-9]+\}(?:\^\{-?[A-Za-z0-9]+\})?|[A-Za-z0-9_]*)'*", term)
-    if not bad:
-        return False
-    bad = bad.group(0)
-    texts = []
-    for x in (spec.get('answers'), spec.get('input'), spec.get('cfg', {}).get('variables', [])):
-        if isinstance(x, dict):
-            texts += list(x.values())
-        elif isinstance(x, (list, tuple)):
-            texts += [t for t in x if isinstance(t, str)]
-        elif isinstance(x, str):
-            texts.append(x)
-    names = set()
-    for t in texts:
-        names.update(_re.findall(r"[A-Za-z][A-Za-z0-9]*(?:_\{-?[A-Za-z0-9]+\})(?:\^\{-?[A-Za-z0-9]+\})?'*", t.replace(' ', '')))
-    return any(n != bad and n.lower() == bad.lower() for n in names)
-
-
 def referenced_by_earlier(answers, box):
     key = 'sibling_%d' % (box + 1)
     import re as _re
     return any(_re.search(r'\b%s\b' % key, a) for a in answers[:box])
-
-
-def empty_range(spec, entered):
-    """limits are integer literals and the even/odd filter leaves no index"""
-    fields = dict(spec['answers'])
-    fields.update(dict(zip(entered, spec['input'])))
-    try:
-        lo, hi = int(fields['lower']), int(fields['upper'])
-    except (ValueError, KeyError, TypeError):
-        return False
-    lo, hi = min(lo, hi), max(lo, hi)
-    eo = spec['cfg'].get('even_odd', 0)
-    idx = [n for n in range(lo, hi + 1) if eo == 0 or (eo == 1 and n % 2 == 1) or (eo == 2 and n % 2 == 0)]
-    return not idx
 
 
 def student_fields_clean(spec, entered):
@@ -1085,6 +1017,8 @@ def replay(w):
         bad = True
     else:
         want = UNDEFINED_CLASSES if spec.get('expect') == 'undefined' else ALLOWED_CLASSES
+        if spec.get('expect') == 'refused':
+            want = ALLOWED_CLASSES + ('SummationError',)
         bad = obs['exc'] not in want
     return bool(bad and same), text
 
@@ -1099,13 +1033,13 @@ LEVEL_TEXT = ('Theorems for every configuration, every formula string / parse tr
               'every iteration; a clean formula is never refused because of what the author\'s answer contains. Stated on '
               'definitions regenerated from the source where the code is declarative, on a hand-written model (over the C03 '
               'parser/evaluator model) tied by differential correspondence otherwise.')
-LEVEL_NOTE = ('Four places where the faithful model and the real code violate the full statement are kept as refuted examples and '
-              'impl-level witnesses (found on every run): an earlier list box that references the offending box reports '
-              'ConfigError; SumGrader never scope-checks the summand over an empty index range; SumGrader validates the '
-              'author\'s own non-entered fields as student input; check_scope\'s "did you mean" suggestion breaks str.format '
-              'when the suggested name contains braces, so the generic error replaces UndefinedVariable. IntegralGrader (needs '
-              'scipy) is covered by the regenerated loop order only. Numeric evaluation and comparison are oracles; trusted: '
-              'Coq kernel, translate/restrict.py, harness/props/c09.py; no axioms.')
+LEVEL_NOTE = ('Two places where the faithful model and the real code still violate the full statement are kept as refuted '
+              'examples and impl-level witnesses found on every run (both recorded as known findings): an earlier list box that '
+              'references the offending box reports ConfigError instead of the undefined-name error; SumGrader validates the '
+              'author\'s own non-entered fields as student input. Two former findings were repaired in /repo (empty summation '
+              'range, message formatting of check_scope); their witnesses are ordinary regression cases now. IntegralGrader '
+              '(needs scipy) is covered by the regenerated loop order only. Numeric evaluation and comparison are oracles; '
+              'trusted: Coq kernel, translate/restrict.py, harness/props/c09.py; no axioms.')
 TECHNIQUE = ('Coq proof (induction over trees, lists of boxes and sample iterations; set/substring specifications) + '
              'source-to-Gallina translator + vm_compute correspondence running the model\'s own check functions')
 DESIGN_REF = 'DESIGN.md section 3, C09'
